@@ -1,6 +1,6 @@
 #!/usr/bin/env python3
 """Import behaviour-preserving refactorings delivered by sub-agents (/tmp/ben/Bxx/deliver/refactorN.diff) into selftest/benign/
-after re-running the whole suite with each of them in a scratch worktree.  usage: import_benign.py B01 B02 ..."""
+after re-running the whole suite with each of them in a scratch worktree.  usage: [BEN_DIR=/tmp/ben BEN_PREFIX=R] import_benign.py B01 B02 ..."""
 import json, os, re, shutil, subprocess, sys
 VERIF = os.path.dirname(os.path.dirname(os.path.abspath(__file__)))
 WT, TGT = "/tmp/ibn/wt", "/tmp/ibn/target"
@@ -19,7 +19,7 @@ def main():
         assert rc == 0, out
     try:
         for b in sys.argv[1:]:
-            d = "/tmp/ben/%s/deliver" % b
+            d = "%s/%s/deliver" % (os.environ.get("BEN_DIR", "/tmp/ben"), b)
             try:
                 meta = json.load(open(d + "/meta.json"))
             except Exception:
@@ -41,7 +41,7 @@ def main():
                         summ = m.get("summary", "")
                 print(b, i, "suite ok" if ok else "SUITE FAILS", "|", summ[:110], flush=True)
                 if ok:
-                    name = "R-%s-%d" % (b, i)
+                    name = "%s-%s-%d" % (os.environ.get("BEN_PREFIX", "R"), b, i)
                     shutil.copy(pf, os.path.join(VERIF, "selftest", "benign", name + ".diff"))
                     json.dump({"author": "independent sub-agent asked for behaviour-preserving refactorings of one region", "summary": summ,
                                "why_equivalent": next((m.get("why_equivalent") for m in meta.get("refactorings", [])
